@@ -274,10 +274,23 @@ fn run_in_child(fmt: Fmt, opts: u32, input: &[u8], tmp: &std::path::Path, mem_mb
                 };
             }
             Ok(None) => {
-                if t0.elapsed().as_secs() >= 20 {
+                // a hang is judged by the CPU time the child has used (20 s), not by wall-clock
+                // time: on a loaded machine a starved child may need long for a millisecond of work
+                // (one dry run under heavy background load reported a correct parser as hanging);
+                // 600 s of wall-clock time remain as a backstop
+                let cpu_s = std::fs::read_to_string(format!("/proc/{}/stat", ch.id()))
+                    .ok()
+                    .and_then(|st| st.rsplit_once(')').map(|x| x.1.to_string()))
+                    .and_then(|rest| {
+                        let f: Vec<&str> = rest.split_whitespace().collect();
+                        // fields after the command: state is f[0]; utime, stime are the 14th and 15th of the line
+                        Some((f.get(11)?.parse::<u64>().ok()? + f.get(12)?.parse::<u64>().ok()?) / 100)
+                    })
+                    .unwrap_or(0);
+                if cpu_s >= 20 || t0.elapsed().as_secs() >= 600 {
                     let _ = ch.kill();
                     let _ = ch.wait();
-                    return (Verdict::Hang, "child did not finish within 20 s".into());
+                    return (Verdict::Hang, format!("child did not finish within 20 s of CPU time ({} s wall-clock)", t0.elapsed().as_secs()));
                 }
                 // (a child that only parses a short input is done within a millisecond)
                 polls += 1;
